@@ -461,19 +461,20 @@ package scanner
 //@   invariant len(s.finds) + rangeindex + 1 == entry(len(s.finds))
 
 //@ ghost field jschema.JSchema.gSrcLen int
-//@ ghost field enum.Enum.gSrcLen int
 //@ extern github.com/jsightapi/jsight-schema-core/notations/jschema.FromFile(f, oo)
 //@   attr deterministic nopanic
 //@   ensures result != nil && fresh(result) && result.gSrcLen == len(f.content.data)
 //@ extern (*github.com/jsightapi/jsight-schema-core/notations/jschema.JSchema).Len(js)
 //@   attr deterministic nopanic
 //@   ensures imp(result1 == nil, result0 <= js.gSrcLen)
-//@ extern github.com/jsightapi/jsight-schema-core/rules/enum.FromFile(f)
-//@   attr deterministic nopanic
-//@   ensures result != nil && fresh(result) && result.gSrcLen == len(f.content.data)
-//@ extern (*github.com/jsightapi/jsight-schema-core/rules/enum.Enum).Len(e)
-//@   attr deterministic nopanic
-//@   ensures imp(result1 == nil, result0 <= e.gSrcLen)
+// enumLen runs the enum scanner of the library under a deferred recover (its Len panics on some unfinished enums: D26).
+// The recover idiom is outside the executor: assumed contract; its shape (defer first, recover() called, the error result
+// written) is decided on the SSA (obligation scanner.enumLen/recover-at-boundary). The length bound is assumed of the
+// library, as for jschema.Len.
+//@ func enumLen(file)
+//@   attr trusted deterministic nopanic
+//@   modifies nothing
+//@   ensures imp(result1 == nil, result0 <= len(file.content.data))
 // errLimit(e): length of the file an error of the schema library was converted for (assumed: its Index() lies inside it)
 //@ opaque fn errLimit(ref int) int
 //@ extern github.com/jsightapi/jsight-schema-core/kit.ConvertError(f, err)
